@@ -285,6 +285,8 @@ impl Precedence for Format<'_, Formula> {
 
     fn mandatory_parentheses(&self) -> bool {
         match self.0 {
+            // a chained comparison is rendered as an unparenthesised conjunction `a & b`
+            Formula::AtomicFormula(AtomicFormula::Comparison(c)) => c.guards.len() > 1,
             Formula::AtomicFormula(_) | Formula::QuantifiedFormula { .. } => false,
             Formula::UnaryFormula { .. } | Formula::BinaryFormula { .. } => true,
         }
